@@ -222,8 +222,10 @@ def run(repo: Repo, L: Ledger, tier: str):
                     elif isinstance(t, ast.BoolOp):
                         # (gap and self.rows) false: unknown which one
                         pass
+                    elif "len(" in norm(t) and ("self.rows" in norm(t) or gap_param in norm(t)):
+                        pass  # the len()-spelling of a fact that cond_facts also reports on the operand itself
                     else:
-                        ok3, why3 = False, f"unexpected condition '{norm(t)}'"
+                        raise AnalysisError(f"{app.short}: condition '{norm(t)[:50]}' is not one the append rule understands")
             if e.kind == "stmt":
                 for c in [x for x in [e.node, *walk_shallow(e.node)] if isinstance(x, ast.Call)]:
                     t = norm(c)
